@@ -220,13 +220,14 @@ func init() {
 	Register("C12", &Scenario{
 		Name:   "signalling-fuzz",
 		Weight: 3,
-		Owns:   []string{"C12", "panic"},
-		New:    func() any { return &confPlan{} },
-		Gen:    genFuzzPlan,
+		// see membership-crash (conf_membership.go) for the map race
+		Owns: []string{"C12", "panic", "race:webClient.data"},
+		New:  func() any { return &confPlan{} },
+		Gen:  genFuzzPlan,
 		Cfg: func(tp *simrt.Tape, plan any) simrt.Config {
 			c := swarmCfg(tp, false)
 			c.PCTPoints = 3000
-			c.Races = false
+			c.Races = tp.Chance(1, 3)
 			return c
 		},
 		Run:    runFuzz,
